@@ -3,7 +3,7 @@ import json
 import os
 
 from bsv.effects import classify_use, live_walk
-from bsv.facts import REPO, VERIF, strip, strip_targs
+from bsv.facts import REPO, VERIF, AnalysisBroken, strip, strip_targs
 from rules.c20 import pattern_in_lib
 
 PROP = 'C19'
